@@ -456,8 +456,59 @@ def _catalogue() -> tuple:
     return tuple(c)
 
 
+THOROUGH = False
+
+
+@functools.lru_cache(maxsize=None)
+def _extended() -> tuple:
+    """Thorough tier: every class exported by the stdlib modules the library names, plus every typing alias with a class origin,
+    bare and subscripted."""
+    import importlib
+    import inspect as _inspect
+
+    seen = {a.cls for a in _catalogue()}
+    out = []
+    for mn in ("datetime", "decimal", "fractions", "numbers", "uuid", "pathlib", "enum", "collections", "collections.abc", "ipaddress", "types", "array", "queue", "io"):
+        try:
+            m = importlib.import_module(mn)
+        except Exception:
+            continue
+        for nm in sorted(dir(m)):
+            o = getattr(m, nm)
+            if _inspect.isclass(o) and not nm.startswith("_") and o.__module__.split(".")[0] in (mn.split(".")[0], "_collections_abc", "builtins", "_decimal", "_io"):
+                dotted = f"{mn}.{nm}"
+                try:
+                    oracle.stdlib_class(dotted)
+                except Exception:
+                    continue
+                if dotted not in seen and not issubclass(o, BaseException):
+                    seen.add(dotted)
+                    out.append(TypeArg(dotted))
+    import typing as _t
+
+    for nm in sorted(dir(_t)):
+        o = getattr(_t, nm)
+        org = getattr(o, "__origin__", None)
+        if _inspect.isclass(org) and nm[0].isupper():
+            dotted = f"{org.__module__}.{org.__qualname__}"
+            try:
+                oracle.stdlib_class(dotted)
+            except Exception:
+                continue
+            n = getattr(o, "_nparams", 1) or 1
+            if n in (1, 2):
+                out.append(TypeArg(dotted, True, ("builtins.str", "builtins.int")[: n if n > 0 else 1]))
+    return tuple(out)
+
+
 def catalogue():
-    return list(_catalogue())
+    base = list(_catalogue())
+    if THOROUGH:
+        have = {(a.cls, a.subscripted, a.args, a.flags) for a in base}
+        for a in _extended():
+            if (a.cls, a.subscripted, a.args, a.flags) not in have:
+                base.append(a)
+    return base
 
 
 def route(prog: Program, pe: PredEval, rows: list[Row], arg: TypeArg):
